@@ -160,6 +160,16 @@ Definition get_receipts (d : store) (id : bid) : bool :=
   | None => false
   end.
 
+(** chainhandle.go:findAncestor (used by the syncer): the first listed hash that names a stored block
+    which is on the main chain at its number *)
+Definition on_main (d : store) (h : bid) : bool :=
+  match get_block d h with
+  | Some b => match get_hash_by_no d (no b) with Some h' => h' =? hash_field b | None => false end
+  | None => false
+  end.
+Definition find_ancestor (d : store) (hs : list bid) : option block :=
+  match find (on_main d) hs with Some h => get_block d h | None => None end.
+
 (** ** Write units *)
 Fixpoint tx_ops (id : bid) (i : nat) (l : list txid) : list op :=
   match l with
@@ -199,6 +209,12 @@ Fixpoint dedup (l : list N) : list N :=
   | [] => []
   | x :: l' => if mem x l' then dedup l' else x :: dedup l'
   end.
+
+(** errBlocks: lru.Cache of dfltErrBlocks = 128 entries; Add moves an existing key to the front and
+    evicts the oldest entry beyond the capacity; Contains does not touch recency. *)
+Definition bad_cap : nat := 128.
+Definition bad_add (id : bid) (l : list bid) : list bid :=
+  if mem id l then id :: filter (fun x => negb (x =? id)) l else firstn bad_cap (id :: l).
 
 Section WithApply.
 Variable apply : sroot -> block -> option sroot.
@@ -386,7 +402,7 @@ Definition add_block (n : node) (b : block) : node * result :=
        | Some _ => (n, RKnown)                                   (* IsConnectedBlock *)
        | None =>
            match add_block_internal n b with
-           | (n1, RErr, true) => (set_bad n1 (hash_field b :: bad n1), RErr)
+           | (n1, RErr, true) => (set_bad n1 (bad_add (hash_field b) (bad n1)), RErr)
            | (n1, r, _) => (n1, r)
            end
        end.
